@@ -92,6 +92,15 @@ func DrawURL(c *core.Ctx, label string, uniq int, allowRelative bool, host strin
 			}
 			sb.WriteString(c.PickStr(label+".port", "", "", ":8443", ":80"))
 		}
+		if !rel && c.Chance(label+".emptyPath", 1, 12) {
+			// no path at all: the authority is the whole URL (made unique by a query)
+			fmt.Fprintf(&sb, "?u=%d", uniq)
+			s := sb.String()
+			if u, err := url.Parse(s); err == nil && u.String() == s {
+				c.Probe("URL with an empty path")
+				return s
+			}
+		}
 		sb.WriteString("/")
 		n := c.Int(label+".nseg", 0, 3)
 		for i := 0; i < n; i++ {
@@ -169,6 +178,10 @@ func DrawResp(c *core.Ctx, label string, uniq int) LResp {
 	if n > 1000 && !c.Chance(label+".big", 1, 3) {
 		n = c.Int(label+".bodyLen2", 0, 300)
 	}
+	if c.Chance(label+".huge", 1, 400) {
+		n = c.PickInt(label+".hugeLen", 1<<20, 1<<20+1, 1<<21+5) // past pre-allocation limits
+		c.Probe("body of 1 MiB and more")
+	}
 	// every body is unique within a run: a 6-byte tag + pattern
 	tag := fmt.Sprintf("#%05d", uniq)
 	body := make([]byte, n)
@@ -241,6 +254,42 @@ func DrawBundle(c *core.Ctx, maxEx int, withSigs bool) *LBundle {
 		}
 		lb.Exchanges = append(lb.Exchanges, LExchange{URL: u, Resp: r})
 		uniq++
+	}
+	if len(lb.Exchanges) >= 3 && c.Chance("bundle.interleaved", 1, 3) {
+		// the caller did not add the representations of one URL next to each other: any
+		// order of the exchanges that keeps each URL's own entries in their relative order
+		// is the same bundle
+		perm := c.Perm("bundle.interleave", len(lb.Exchanges))
+		// stable within one URL: sort the positions each URL received
+		byURL := map[string][]int{}
+		for newPos, old := range perm {
+			u := lb.Exchanges[old].URL
+			byURL[u] = append(byURL[u], newPos)
+		}
+		newIdx := make([]int, len(lb.Exchanges)) // old index -> new index
+		seen := map[string]int{}
+		for old := range lb.Exchanges {
+			u := lb.Exchanges[old].URL
+			ps := append([]int(nil), byURL[u]...)
+			sort.Ints(ps)
+			newIdx[old] = ps[seen[u]]
+			seen[u]++
+		}
+		ne := make([]LExchange, len(lb.Exchanges))
+		for old, e := range lb.Exchanges {
+			ne[newIdx[old]] = e
+		}
+		lb.Exchanges = ne
+		for _, u := range core.SortedKeys(lb.Order) {
+			o := append([]int(nil), lb.Order[u]...)
+			for i := range o {
+				if o[i] >= 0 {
+					o[i] = newIdx[o[i]]
+				}
+			}
+			lb.Order[u] = o
+		}
+		c.Probe("exchanges of one URL not adjacent")
 	}
 	if lb.Version == "b1" {
 		// writer precondition: b1 always carries a primary URL in its header
